@@ -19,6 +19,7 @@ import (
 	"massnet.org/mass-wallet/masswallet/txmgr"
 )
 
+//go:norace
 func init() {
 	Runners["C09"] = func(w *World, p map[string]int) { runFamily(w, p, "C09") }
 	Runners["C10"] = func(w *World, p map[string]int) { runFamily(w, p, "C10") }
@@ -38,10 +39,12 @@ type gameRow struct {
 	Spent   bool
 }
 
+//go:norace
 func (g gameRow) String() string {
 	return fmt.Sprintf("%s:%d h=%d amt=%d frozen=%d addr=%s target=%s spent=%v", g.TxID[:12], g.Index, g.Height, g.Amount, g.Frozen, g.Address, g.Target, g.Spent)
 }
 
+//go:norace
 func sortRows(r []gameRow) {
 	sort.Slice(r, func(i, j int) bool {
 		if r[i].TxID != r[j].TxID {
@@ -51,6 +54,7 @@ func sortRows(r []gameRow) {
 	})
 }
 
+//go:norace
 func diffRows(kind string, got, want []gameRow) string {
 	sortRows(got)
 	sortRows(want)
@@ -89,6 +93,8 @@ func diffRows(kind string, got, want []gameRow) string {
 
 // CheckGames compares the mined staking and binding histories of the selected
 // wallet with the deposits of the ledger model.
+//
+//go:norace
 func (w *World) CheckGames(inst *Instance, ws *WalletState, l *Ledger, class string) {
 	var sh, shx []*txmgr.StakingHistoryDetail
 	var bh, bhx []*txmgr.BindingHistoryDetail
@@ -186,6 +192,8 @@ func (w *World) CheckGames(inst *Instance, ws *WalletState, l *Ledger, class str
 // CheckWithdrawSequences builds (without signing) a withdrawal of every
 // staking / binding coin of the model through the explicit-input API and
 // checks the sequence value of the input against the consensus rule.
+//
+//go:norace
 func (w *World) CheckWithdrawSequences(inst *Instance, ws *WalletState, l *Ledger, class string) {
 	if _, err := inst.Use(ws.ID, true); err != nil {
 		return
@@ -255,6 +263,8 @@ func (w *World) CheckWithdrawSequences(inst *Instance, ws *WalletState, l *Ledge
 
 // IssueAddress requests a new address and checks it against the independent
 // derivation and the gap rule. It returns the error of the API call.
+//
+//go:norace
 func (w *World) IssueAddress(inst *Instance, ws *WalletState, staking bool, solo bool, class string) error {
 	if _, err := inst.Use(ws.ID, true); err != nil {
 		return err
@@ -328,6 +338,8 @@ func (w *World) IssueAddress(inst *Instance, ws *WalletState, staking bool, solo
 }
 
 // CheckAddresses checks listing and used flags of issued addresses.
+//
+//go:norace
 func (w *World) CheckAddresses(inst *Instance, ws *WalletState, l *Ledger, class string) {
 	if _, err := inst.Use(ws.ID, true); err != nil {
 		return
@@ -428,6 +440,8 @@ func (w *World) CheckAddresses(inst *Instance, ws *WalletState, l *Ledger, class
 // PendingSet returns the candidate transactions the wallet currently holds
 // as pending (candidates: every transaction the harness ever produced that is
 // not on the best chain).
+//
+//go:norace
 func (w *World) PendingSet(inst *Instance) (map[wire.Hash]*wire.MsgTx, bool) {
 	out := map[wire.Hash]*wire.MsgTx{}
 	var cands []wire.Hash
@@ -454,6 +468,8 @@ func (w *World) PendingSet(inst *Instance) (map[wire.Hash]*wire.MsgTx, bool) {
 }
 
 // CheckPending evaluates the pending-set invariants for one wallet.
+//
+//go:norace
 func (w *World) CheckPending(inst *Instance, ws *WalletState, l *Ledger, pend map[wire.Hash]*wire.MsgTx, class string) {
 	// spent-by-pending flags
 	if _, err := inst.Use(ws.ID, true); err != nil {
@@ -496,6 +512,8 @@ func (w *World) CheckPending(inst *Instance, ws *WalletState, l *Ledger, pend ma
 }
 
 // CheckPendingGlobal evaluates the instance-wide pending invariants.
+//
+//go:norace
 func (w *World) CheckPendingGlobal(inst *Instance, pend map[wire.Hash]*wire.MsgTx, expect map[wire.Hash]string, class string) {
 	// wallet-owned holder hashes of ready wallets
 	own := map[[32]byte]bool{}
@@ -581,6 +599,7 @@ func (w *World) CheckPendingGlobal(inst *Instance, pend map[wire.Hash]*wire.MsgT
 	}
 }
 
+//go:norace
 func ownedParentOutput(w *World, own map[[32]byte]bool, op wire.OutPoint) bool {
 	prev := w.Node.LookupTx(op.Hash)
 	if prev == nil || int(op.Index) >= len(prev.TxOut) {
@@ -592,6 +611,7 @@ func ownedParentOutput(w *World, own map[[32]byte]bool, op wire.OutPoint) bool {
 
 // ---------------- shared runner ----------------
 
+//go:norace
 func runFamily(w *World, p map[string]int, prop string) {
 	t := w.Plan
 	k := drawKnobs(w)
@@ -776,6 +796,8 @@ func runFamily(w *World, p map[string]int, prop string) {
 
 // relevantToWallets reports whether tx pays or spends an address of a ready
 // harness-known wallet.
+//
+//go:norace
 func relevantToWallets(w *World, inst *Instance, tx *wire.MsgTx) bool {
 	own := map[[32]byte]bool{}
 	for _, id := range inst.SortedWalletIDs() {
@@ -801,6 +823,8 @@ func relevantToWallets(w *World, inst *Instance, tx *wire.MsgTx) bool {
 
 // checkRestore (C12): a mnemonic restore on a fresh instance, with index hint
 // 0, must find every address that ever received funds.
+//
+//go:norace
 func checkRestore(w *World, src *Instance, t *Tape, class string) {
 	ids := src.SortedWalletIDs()
 	ws := src.Wallets[ids[t.Int(len(ids))]]
